@@ -173,7 +173,10 @@ def _mutate(rng, raw: bytes, layout: list, other: bytes) -> tuple[bytes, str]:
             v = max(lo, min(hi, v))
             b[off:off + ln] = v.to_bytes(ln, "big", signed=True)
         else:
-            cur, _ = refcodec.read_uvarint(bytes(b), off, 10)
+            try:
+                cur, _ = refcodec.read_uvarint(bytes(b), off, 10)
+            except (EOFError, ValueError):
+                cur = 0  # stale layout after an earlier mutation
             choice = rng.randrange(12)
             if choice == 0:
                 new = b"\xff\xff\xff\xff\xff"  # continuation bit set in 5th byte
